@@ -111,6 +111,32 @@ def trunc (s : Style) (uns : Bool) : RStyle → (K → Int) → K → K → Int
 
 end cmp
 
+/-! ### the instances the driver runs on exact inputs: the rational numbers of core Lean
+
+`Props/C17.lean` shows that these are the same functions as the generic ones at Mathlib's ordered field `ℚ`
+(`Rat` *is* `ℚ`), so the theorems proved for an arbitrary ordered field speak about exactly what the driver
+evaluates and the harness compares with the C++ results. -/
+
+/-- the C++ conversion `I(val)` on a rational: truncation toward zero -/
+def trRat (x : Rat) : Int := Int.tdiv x.num x.den
+
+def eqRat (s : Style) (a b e : Rat) : Bool := eqS s a b e
+def neRat (s : Style) (a b e : Rat) : Bool := neS s a b e
+def ltRat (s : Style) (a b e : Rat) : Bool := ltS s a b e
+def gtRat (s : Style) (a b e : Rat) : Bool := gtS s a b e
+def leRat (s : Style) (a b e : Rat) : Bool := leS s a b e
+def geRat (s : Style) (a b e : Rat) : Bool := geS s a b e
+def eqVecRat (s : Style) (a b : List Rat) (e : Rat) : Bool := eqVec s a b e
+def neVecRat (s : Style) (a b : List Rat) (e : Rat) : Bool := neVec s a b e
+def ltVecRat (s : Style) (a b : List Rat) (e : Rat) : Bool := ltVec s a b e
+def gtVecRat (s : Style) (a b : List Rat) (e : Rat) : Bool := gtVec s a b e
+def leVecRat (s : Style) (a b : List Rat) (e : Rat) : Bool := leVec s a b e
+def geVecRat (s : Style) (a b : List Rat) (e : Rat) : Bool := geVec s a b e
+def eqFVRat (s : Style) (a b : List Rat) (e : Rat) : Bool := eqFV s a b e
+def neFVRat (s : Style) (a b : List Rat) (e : Rat) : Bool := neFV s a b e
+def roundRat (s : Style) (rs : RStyle) (val eps : Rat) : Int := round s rs trRat val eps
+def truncRat (s : Style) (uns : Bool) (rs : RStyle) (val eps : Rat) : Int := trunc s uns rs trRat val eps
+
 /-! ### `sign` and `power` over a scalar type -/
 
 /-- `sign(val)` : `(val < 0 ? -1 : 1)` -/
